@@ -20,7 +20,7 @@ Print Assumptions C20_observable.
 
 Example C20_nonvacuous :
   pg_model {| pg_n := 7; pg_size := 3; pg_flt := {| f_name := None; f_regex := Some [84;114;117;101]%N |} |}
-  = {| pg_result := [0;1;2;3;4;5;6];
+  = {| pg_result := [0;1;2;3;4;5;6]%N;
        pg_reqs := map (fun p => {| o_page := p; o_size := 3; o_name := None;
                                    o_regex := Some [116;114;117;101]%N; o_pagination := true |}) [1;2;3];
        pg_fuel_out := false |}.
